@@ -401,6 +401,17 @@ func subC14Dkg(arg string) string {
 			}
 			nodes[i].VerifHandleGrouping(ids, gid)
 		}(i)
+		if fault == "event-repeated" {
+			// the chain delivers the grouping event a second time (two endpoints, a re-organisation) while
+			// the session it started is still running
+			wg.Add(1)
+			again := time.Duration(5+10*i) * time.Millisecond
+			go func(i int) {
+				defer wg.Done()
+				time.Sleep(again)
+				nodes[i].VerifHandleGrouping(ids, gid)
+			}(i)
+		}
 	}
 	if byz >= 0 && fault != "peer-silent" {
 		att := netw.Endpoint(ids[byz])
@@ -568,7 +579,7 @@ func genC14(rng *hx.Rng, tier string, w *hx.Writer) error {
 	}
 	// key generation
 	dDeadlines := []int{0, 3, 10, 25, 50, 90, 150, 250, 400, 700, 1500}
-	dFaults := []string{"none", "peer-silent", "invalid-deal", "register-failure", "slow-network", "many-invalid-deals", "buffered-then-retransmitted"}
+	dFaults := []string{"none", "peer-silent", "invalid-deal", "register-failure", "slow-network", "many-invalid-deals", "buffered-then-retransmitted", "event-repeated"}
 	for rep := 0; rep < reps; rep++ {
 		for _, f := range dFaults {
 			for _, dl := range dDeadlines {
